@@ -260,7 +260,7 @@ def derivatives_facets(run, core):
 
 # ----------------------------------------------------------------------------- bounded stand-ins
 def bounded(run):
-    ncase = 480 if run.tier == "quick" else 6000
+    ncase = 480 if run.tier == "quick" else 6000 * run.tmul
     jobs = [dict(seed=run.seed * 7919 + k, count=ncase // 12) for k in range(12)]
     res, errs = native.pmap("contracts.C02", "nat_sweep", jobs)
     run.worker_errors(errs, len(jobs))
@@ -269,7 +269,7 @@ def bounded(run):
     run.bounded_result("compiled derivatives == published model (native)", f"{MOD}.derivatives",
                        f"{ev} random inputs over 6 fabrics x 2 regimes, generic and axis-aligned orientations, p,n,lambda,M*,phi in their ranges", ev, fails, ev)
     # JIT vs interpreted source (S-NUMBA stand-in)
-    nj = 60 if run.tier == "quick" else 600
+    nj = 60 if run.tier == "quick" else 600 * run.tmul
     a = native.call("contracts.C02", "nat_outputs", dict(seed=run.seed, count=nj), jit=True)
     b = native.call("contracts.C02", "nat_outputs", dict(seed=run.seed, count=nj), jit=False)
     fails = []
